@@ -31,6 +31,7 @@ type c13Mon struct {
 	nextPtr  int
 	history  []string
 	failed   bool
+	deleted  gedcom.Nodes // root records removed by Document.DeleteNode (may be added again)
 }
 
 func c13Walk(ns gedcom.Nodes, path string, f func(n gedcom.Node, path string)) {
@@ -538,6 +539,7 @@ func c13DeleteRoot(m *c13Mon, r *fw.Rand) {
 		if ptr != "" && m.doc.NodeByPointer(ptr) == n {
 			return "leaked-removed: deleted record is still returned by NodeByPointer"
 		}
+		m.deleted = append(m.deleted, n)
 		return ""
 	})
 }
@@ -685,6 +687,39 @@ func c13DeleteWithTag(m *c13Mon, r *fw.Rand) {
 }
 
 func c13AddRoot(m *c13Mon, r *fw.Rand) {
+	// either a new record, or a record that Document.DeleteNode removed
+	// earlier is put back (with everything that is still inside it)
+	if len(m.deleted) > 0 && r.Bool() {
+		k := r.Intn(len(m.deleted))
+		n := m.deleted[k]
+		m.deleted = append(m.deleted[:k:k], m.deleted[k+1:]...)
+		m.edit("Document.AddNode(deleted "+n.Tag().Tag()+" again)", func() string {
+			m.doc.Families()
+			for _, i := range m.doc.Individuals() {
+				i.Families()
+				i.Spouses()
+			}
+			m.doc.AddNode(n)
+			if !c13Has(m.doc.Nodes(), n) || (n.Pointer() != "" && m.doc.NodeByPointer(n.Pointer()) != n) {
+				return "missed-added: the record that was added again is not in Nodes()/NodeByPointer"
+			}
+			switch x := n.(type) {
+			case *gedcom.IndividualNode:
+				if !c13Has(m.doc.Individuals(), n) {
+					return "missed-added: the individual that was added again is not in Individuals()"
+				}
+			case *gedcom.FamilyNode:
+				if !c13Has(m.doc.Families(), n) {
+					return "missed-added: the family that was added again is not in Families()"
+				}
+				if i := x.Husband().Individual(); i != nil && c13Has(m.doc.Individuals(), i) && !c13Has(i.Families(), x) {
+					return "missed-added: the family that was added again is not in its husband's Families()"
+				}
+			}
+			return ""
+		})
+		return
+	}
 	ptr := m.freshPtr("N")
 	m.edit("Document.AddNode", func() string {
 		n := gedcom.NewNode(gedcom.TagNote, "a note record", ptr)
